@@ -590,15 +590,11 @@ func alterable(modify *schema.ModifyTable) bool {
 
 // checks writes the CHECK constraint to the builder.
 func check(b *sqlx.Builder, c *schema.Check) {
-	expr := c.Expr
-	// Expressions should be wrapped with parens.
-	if t := strings.TrimSpace(expr); !strings.HasPrefix(t, "(") || !strings.HasSuffix(t, ")") {
-		expr = "(" + t + ")"
-	}
 	if c.Name != "" {
 		b.P("CONSTRAINT").Ident(c.Name)
 	}
-	b.P("CHECK", expr)
+	// Expressions should be wrapped with parens.
+	b.P("CHECK", sqlx.MayWrap(strings.TrimSpace(c.Expr)))
 }
 
 func autoincPK(pk *schema.Index) bool {
